@@ -415,6 +415,9 @@ std::string sample_json(const Input& in, const std::string& extra) {
 
 void put_input(const Input& in) {
     simfs::put_file(INPUT_PATH_PREFIX + in.suffix, in.bytes);
+    uint64_t h = 1469598103934665603ULL;
+    for (unsigned char c : in.bytes) { h = (h ^ c) * 1099511628211ULL; }
+    sim::add_to_signature(h); // distinctness: the input bytes are part of the case
 }
 
 void config_buffers() {
